@@ -9,3 +9,6 @@ import DafRel.Props.C14
 #print axioms DafRel.Props.C14.noop_calls_return_self
 #print axioms DafRel.Props.C14.sql_apply_wellformed
 #print axioms DafRel.Props.C14.sql_conform_wellformed
+#print axioms DafRel.Props.C14.sql_history_trees_wellformed
+#print axioms DafRel.Props.C14.apply_with_options_wellformed
+#print axioms DafRel.Props.C14.processed_trees_wellformed
